@@ -1,1 +1,220 @@
-fn main(){ println!("hi"); }
+#![allow(dead_code)]
+//! sml-sim: deterministic simulation with fault injection for sml-rs.
+//!
+//!   sml-sim check <ID> <quick|thorough>      run the batch of a property
+//!   sml-sim replay <file>                    re-execute a replay file in a fresh process
+//!   sml-sim selftest                         reference-model self tests
+//!   sml-sim determinism [ID..]               determinism proof (1 vs N workers, twice)
+//!   (internal) worker / exec-one
+
+#[global_allocator]
+static GLOBAL: alloc::SimAlloc = alloc::SimAlloc;
+
+mod alloc;
+mod core;
+mod fe;
+mod gen;
+mod hexbytes;
+mod obs;
+mod props;
+mod refenc;
+mod rng;
+mod runner;
+mod scn;
+mod shrink;
+mod smlref;
+
+use crate::core::Tier;
+use std::path::PathBuf;
+
+fn selftest() -> Result<(), String> {
+    refenc::self_test()?;
+    smlref::self_test()?;
+    Ok(())
+}
+
+fn usage() -> i32 {
+    eprintln!("usage: sml-sim check <ID> <quick|thorough> | replay <file> | selftest | determinism [ID..] | list");
+    2
+}
+
+fn real_main() -> i32 {
+    runner::install_panic_hook();
+    let args: Vec<String> = std::env::args().collect();
+    if args.len() < 2 {
+        return usage();
+    }
+    match args[1].as_str() {
+        "list" => {
+            for p in props::all() {
+                println!("{}", p.id());
+            }
+            0
+        }
+        "selftest" => match selftest() {
+            Ok(()) => {
+                println!("selftest ok");
+                0
+            }
+            Err(e) => {
+                eprintln!("HARNESS ERROR: selftest failed: {}", e);
+                2
+            }
+        },
+        "check" => {
+            if args.len() < 4 {
+                return usage();
+            }
+            let prop = match props::get(&args[2]) {
+                Some(p) => p,
+                None => {
+                    eprintln!("HARNESS ERROR: unknown property {}", args[2]);
+                    return 2;
+                }
+            };
+            let tier = match Tier::parse(&args[3]) {
+                Some(t) => t,
+                None => return usage(),
+            };
+            if let Err(e) = selftest() {
+                eprintln!("HARNESS ERROR: selftest failed: {}", e);
+                return 2;
+            }
+            let opts = runner::CheckOpts {
+                tier,
+                seed: runner::seed_from_env(),
+                workers: runner::workers_default(),
+                dump_hashes: false,
+                write_evidence: true,
+                keep_outdir: std::env::var("VERIF_KEEP").is_ok(),
+            };
+            runner::check(prop, &opts).exit
+        }
+        "worker" => {
+            // worker <ID> <tier> <seed> <shard> <nshards> <outdir> [--skip a,b] [--only i] [--dump-hashes]
+            if args.len() < 8 {
+                return usage();
+            }
+            let prop = props::get(&args[2]).expect("HARNESS: unknown property");
+            let mut a = runner::WorkerArgs {
+                tier: Tier::parse(&args[3]).expect("HARNESS: tier"),
+                seed: args[4].parse().expect("HARNESS: seed"),
+                shard: args[5].parse().expect("HARNESS: shard"),
+                nshards: args[6].parse().expect("HARNESS: nshards"),
+                outdir: PathBuf::from(&args[7]),
+                skip: Vec::new(),
+                only: None,
+                dump_hashes: false,
+            };
+            let mut i = 8;
+            while i < args.len() {
+                match args[i].as_str() {
+                    "--skip" => {
+                        a.skip = args[i + 1].split(',').filter_map(|x| x.parse().ok()).collect();
+                        i += 2;
+                    }
+                    "--only" => {
+                        a.only = args[i + 1].parse().ok();
+                        i += 2;
+                    }
+                    "--dump-hashes" => {
+                        a.dump_hashes = true;
+                        i += 1;
+                    }
+                    _ => return usage(),
+                }
+            }
+            runner::worker(prop, &a)
+        }
+        "replay" => {
+            if args.len() < 3 {
+                return usage();
+            }
+            runner::replay(&PathBuf::from(&args[2]))
+        }
+        "exec-one" => {
+            if args.len() < 3 {
+                return usage();
+            }
+            let path = PathBuf::from(&args[2]);
+            let pid = match runner::replay_property(&path) {
+                Some(p) => p,
+                None => return 2,
+            };
+            let prop = props::get(&pid).expect("HARNESS: unknown property in replay file");
+            runner::exec_one(prop, &path)
+        }
+        "determinism" => {
+            let ids: Vec<String> = if args.len() > 2 {
+                args[2..].to_vec()
+            } else {
+                props::all().iter().map(|p| p.id().to_string()).collect()
+            };
+            determinism(&ids)
+        }
+        _ => usage(),
+    }
+}
+
+/// 1 worker vs N workers, each twice: the sorted (run, history hash, verdict) lists must be identical
+fn determinism(ids: &[String]) -> i32 {
+    std::env::set_var("VERIF_RUNS_SCALE", std::env::var("VERIF_DET_SCALE").unwrap_or_else(|_| "0.02".into()));
+    let mut bad = 0;
+    for id in ids {
+        let prop = match props::get(id) {
+            Some(p) => p,
+            None => {
+                eprintln!("unknown property {}", id);
+                return 2;
+            }
+        };
+        let mut lists: Vec<(String, Vec<String>)> = Vec::new();
+        for (label, workers) in [("w1-a", 1u64), ("w16-a", 16), ("w7-b", 7), ("w16-b", 16)] {
+            let opts = runner::CheckOpts {
+                tier: Tier::Quick,
+                seed: runner::seed_from_env(),
+                workers,
+                dump_hashes: true,
+                write_evidence: false,
+                keep_outdir: true,
+            };
+            let rep = runner::check(prop, &opts);
+            let mut lines = Vec::new();
+            if let Ok(rd) = std::fs::read_dir(&rep.outdir) {
+                for e in rd.flatten() {
+                    if e.file_name().to_string_lossy().starts_with("hashes-") {
+                        let s = std::fs::read_to_string(e.path()).unwrap_or_default();
+                        lines.extend(s.lines().map(|l| l.to_string()));
+                    }
+                }
+            }
+            lines.sort_by_key(|l| l.split(' ').next().and_then(|x| x.parse::<u64>().ok()).unwrap_or(0));
+            let _ = std::fs::remove_dir_all(&rep.outdir);
+            lists.push((label.to_string(), lines));
+        }
+        let base = &lists[0].1;
+        for (label, l) in &lists[1..] {
+            if l != base {
+                bad += 1;
+                let first = base.iter().zip(l.iter()).find(|(a, b)| a != b);
+                println!("DETERMINISM FAILURE {}: {} differs from {} ({} vs {} lines) first diff: {:?}", id, label, lists[0].0, l.len(), base.len(), first);
+            }
+        }
+        println!("determinism {}: {} runs x 4 executions compared: {}", id, base.len(), if bad == 0 { "identical" } else { "DIFFERENT" });
+    }
+    if bad > 0 {
+        2
+    } else {
+        0
+    }
+}
+
+fn main() {
+    // everything runs on a big-stack thread (large ArrayBuf<N> instantiations live on the stack)
+    let h = std::thread::Builder::new()
+        .stack_size(512 << 20)
+        .spawn(real_main)
+        .expect("spawn main thread");
+    let code = h.join().unwrap_or(2);
+    std::process::exit(code);
+}
